@@ -19,6 +19,36 @@ def levels_above_branch(T):
             return n, t in ("record", "union")
 
 
+def maybe_negaxis(rng, T, p=0.5):
+    """records/unions whose fields all have the same depth: a negative axis names one level, so an operation must agree
+    with itself called with the equivalent non-negative axis (whatever lies between).  -> (negative, positive) or None"""
+    lo, hi = gen.depth_of(T)
+    _n, branches = levels_above_branch(T)
+    if branches and lo == hi and rng.random() < p:
+        k = rng.randint(1, hi)
+        return -k, hi - k
+    return None
+
+
+def check_negaxis(ctx, b, h, case, out):
+    """the monitor for cases made with maybe_negaxis (case["negaxis"] = the non-negative equivalent of op["axis"])"""
+    from vlib import ops as _ops
+    op = case["op"]
+    pos = dict(op, axis=case["negaxis"])
+    ref = _ops.run_op(b, h, pos)
+    ctx.cover("negaxis", "%s:%d=%d:%s" % (op["op"], op["axis"], pos["axis"], ref.kind))
+    if out.kind != ref.kind or (out.kind == "value" and not (model.same(out.value, ref.value) and out.type == ref.type)):
+        ctx.violation("negative-axis-differs", {"op": op, "positive": pos, "got": out.brief(), "with_positive": ref.brief(),
+                                                "type": gen.typestr(case["T"])})
+
+
+def negaxis_signature(vio):
+    det = vio.get("detail") or {}
+    got = det.get("got") or {}
+    return "%s:%s:%s" % (vio["kind"], (det.get("op") or {}).get("op"),
+                         "error:" + str(got.get("msg"))[:40] if "error" in got else "value")
+
+
 def uniform_cfg(tier, **kw):
     """types with a single, well-defined depth: lists / regular / option / primitives"""
     cfg = gen.Cfg(tier, records=False, unions=False, strings=False, categorical=False, **kw)
